@@ -69,6 +69,21 @@ PROBES = [
                                                                  _v("Label", "newtype", ty=STR)]),
                                         _e("Plain", "untagged", [_v("Count", "newtype", ty=U32), _v("Level", "newtype", ty=["float", "f64"]), _v("Label", "newtype", ty=STR)])],
      "roots": ["Reading", "Plain"], "values": {"Reading": [5, 2.5, None, "x"], "Plain": [5, 2.5, "x"]}},
+    # containment cycles whose only in-line path runs through a tuple / a fixed array / a tuple struct
+    {"name": "p_rec_tuple", "types": [{"kind": "tuple_struct", "name": "History", "tys": [U32, ["option", ["box", ["ref", "History"]]]]},
+                                     _s("Node", [_f("v", U8), _f("children", ["tuple", [["option", ["box", ["ref", "Node"]]], ["option", ["box", ["ref", "Node"]]]]])]),
+                                     _s("Chain", [_f("link", ["option", ["tuple", [["box", ["ref", "Chain"]], U8]]])]),
+                                     _s("Ring", [_f("slots", ["array", ["option", ["box", ["ref", "Ring"]]], 2]), _f("id", U8)])],
+     "roots": ["History", "Node", "Chain", "Ring"],
+     "values": {"History": [[1, None], [2, [1, None]]], "Node": [{"v": 1, "children": [None, None]}, {"v": 1, "children": [{"v": 2, "children": [None, None]}, None]}],
+                "Chain": [{"link": None}, {"link": [{"link": None}, 3]}], "Ring": [{"slots": [None, None], "id": 0}, {"slots": [{"slots": [None, None], "id": 1}, None], "id": 2}]}},
+    # nullable members whose default function returns Some(value), the zero value of the wrapped type included
+    {"name": "p_opt_default", "types": [_s("Limits", [_f("retries", ["option", U32], mode="default_fn", dvalue=0), _f("label", ["option", STR], mode="default_fn", dvalue=""),
+                                                      _f("verbose", ["option", BOOL], mode="default_fn", dvalue=False), _f("depth", ["option", U8], mode="default_fn", dvalue=3),
+                                                      _f("zero", U32, mode="default_fn", dvalue=0)])],
+     "roots": ["Limits"],
+     "values": {"Limits": [{"retries": None, "label": None, "verbose": None, "depth": None, "zero": 0}, {"retries": 0, "label": "", "verbose": False, "depth": 3, "zero": 5},
+                           {"retries": 7, "label": "x", "verbose": True, "depth": None, "zero": 1}]}},
     {"name": "p_rec_root", "types": [_s("Tree", [_f("v", U8), _f("kids", ["vec", ["ref", "Tree"]]), _f("next", ["option", ["box", ["ref", "Tree"]]])])],
      "roots": ["Tree"], "values": {"Tree": [{"v": 1, "kids": [{"v": 2, "kids": [], "next": None}], "next": {"v": 3, "kids": [], "next": None}}]}},
     {"name": "p_root_enum", "types": [_e("ExtS", "external", [_v("U"), _v("S", "struct", fields=[_f("x", U8)])]), _e("AdjS", {"adjacent": ["t", "c"]}, [_v("U"), _v("S", "struct", fields=[_f("x", U8)])]),
